@@ -303,6 +303,7 @@ def _upper(it, v):
 
 
 R.spec_funcs["upper_of"] = _upper
+
 EXPECTED_MATCHERS = ("([('for_function', func)] if func is not None else []) + "
                      "([('for_value', 'label', name)] if name is not None else []) + ([('for_regex', 'label', name_regex)] if name_regex is not None else []) + "
                      "([('for_value', 'method', upper_of(method))] if method is not None else []) + "
@@ -321,7 +322,7 @@ R.contract(
         # every option the user gave (and nothing else) is a criterion of the ONE new filter - a filter matches when ALL its criteria match (Filter.match) -
         # on the include side for include(), on the exclude side for exclude(); method names are compared upper-cased
         "one_new_filter_with_exactly_the_given_criteria": "length(self._includes) + length(self._excludes) == 1 and "
-            "all(list(f.matchers) == " + EXPECTED_MATCHERS + " for f in list(self._includes) + list(self._excludes))",
+            "all(length(f.matchers) == length(" + EXPECTED_MATCHERS + ") and all(any(m == e for m in f.matchers) for e in " + EXPECTED_MATCHERS + ") for f in list(self._includes) + list(self._excludes))",
         "on_the_side_asked_for": "(length(self._includes) == 1) == include",
         "accepted_only_if_well_formed": "not " + CLASH + " and length(" + EXPECTED_MATCHERS + ") > 0",
     },
@@ -343,7 +344,7 @@ for _side, _flag in (("include", True), ("exclude", False)):
         raises=["IncorrectUsage"],
         ensures={
             "adds_on_its_own_side_only": "length(self._" + _side + "s) == 1 and length(self._" + ("excludes" if _flag else "includes") + ") == 0",
-            "every_option_is_passed_on_under_its_own_name": "all(list(f.matchers) == " + EXPECTED_MATCHERS + " for f in list(self._includes) + list(self._excludes))",
+            "every_option_is_passed_on_under_its_own_name": "all(length(f.matchers) == length(" + EXPECTED_MATCHERS + ") and all(any(m == e for m in f.matchers) for e in " + EXPECTED_MATCHERS + ") for f in list(self._includes) + list(self._excludes))",
         },
         replayable=False,
     )
